@@ -45,7 +45,9 @@ class Conc(object):
         self.imports = imports      # stores in statement scopes are spelled `import name` (an alias-less import is expensive to rename)
         # how a store in a statement scope is spelled: assign `n = T`, import, ann `n: int = T` (rebuilt by annotation removal), for `for n in [T]: pass`,
         # with `with emit.ctx(T) as n: pass`, tuple `n, emit.k = T, 0`
-        self.store = store or ('import' if imports else 'assign')
+        # a list of abstract names: only those names' stores are alias-less imports (the other name stays cheap to rename and can be handed the import's spelling first)
+        self.import_names = set(imports) if isinstance(imports, (list, tuple)) else None
+        self.store = store or ('import' if imports and self.import_names is None else 'assign')
         if self.store == 'import':
             self.imports = True
         self.import_tags = []
@@ -153,7 +155,7 @@ class Conc(object):
             r = []
             for nm in self.names:
                 if 'store' in self.u(s, nm):
-                    if self.imports:
+                    if self.imports and (self.import_names is None or nm in self.import_names):
                         self.import_tags.append(int(self.T(s, nm, 'store')))
                         r.append(pad + 'import %s' % self.cn[nm])
                     elif self.store == 'ann':
